@@ -49,6 +49,9 @@ class Must(Flow):
         base = key.split("->")[0].split(".")[0].split("[")[0].strip("(*)")
         out = []
         for fct in st:
+            if fct[0] in ("call", "V", "E", "D", "L", "NZ"):
+                out.append(fct)      # "this happened" facts are not about the current value of a variable
+                continue
             names = fct[-1]
             if base in names:
                 text = " ".join(str(x) for x in fct[1:-1])
